@@ -263,6 +263,69 @@ def check_cli(eng, run):
     run.ob("C09.cli", "is_ssl_eof_error-users", not extra, users=sorted(set(users)))
 
 
+def check_default(eng, run):
+    """standard-compatible mode is the default everywhere: an entry point that accepts `standard_compatible=None` resolves None to
+    True (and to nothing else) before use, or hands it unchanged to the callee that does; a literal default is True."""
+    n = 0
+    for fn in eng.db.all_functions():
+        if isinstance(fn.node, ast.Lambda) or fn.has_decorator("overload"):
+            continue
+        a = fn.node.args
+        pos = a.posonlyargs + a.args
+        defaults = dict(zip([x.arg for x in pos[len(pos) - len(a.defaults):]], a.defaults))
+        defaults.update({k.arg: d for k, d in zip(a.kwonlyargs, a.kw_defaults) if d is not None})
+        for name, d in defaults.items():
+            if not name.endswith("standard_compatible"):
+                continue
+            n += 1
+            if isinstance(d, ast.Constant) and d.value is not None:
+                ok = d.value is True
+                if not ok:
+                    run.finding("C09.dflt", fn, fn.node, f"`{name}` defaults to {d.value!r}: truncation would be reported as a clean end-of-stream unless the caller opts in")
+                run.ob("C09.dflt", f"{fn.short}:{name}=True", ok)
+                continue
+            # default None: every use is (a) the `is None` / `is not None` tests, (b) the resolution `name = True` under `if name is None`,
+            # (c) passing it on as-is (keyword / positional argument, attribute store)
+            probs = []
+            resolved = False
+            for node in own_nodes(fn.node):
+                if isinstance(node, (ast.Assign, ast.AnnAssign)):
+                    tg = node.targets if isinstance(node, ast.Assign) else [node.target]
+                    if any(isinstance(t, ast.Name) and t.id == name for t in tg):
+                        v = node.value
+                        under_none = any(isinstance(i, ast.If) and node in i.body and isinstance(i.test, ast.Compare) and dotted(i.test.left) == name and isinstance(i.test.ops[0], ast.Is)
+                                         and isinstance(i.test.comparators[0], ast.Constant) and i.test.comparators[0].value is None for i in own_nodes(fn.node))
+                        if isinstance(v, ast.Constant) and v.value is True and under_none:
+                            resolved = True
+                        else:
+                            probs.append(f"`{ast.unparse(node)}` changes the meaning of the unspecified default")
+            for c in own_nodes(fn.node):
+                if isinstance(c, ast.Call) and (dotted(c.func) or "") in ("bool", "int") and c.args and dotted(c.args[0]) == name and not resolved:
+                    probs.append(f"`{ast.unparse(c)}` turns the unspecified default (None) into False")
+                if isinstance(c, ast.BoolOp) and any(dotted(v) == name for v in c.values) and not resolved:
+                    probs.append(f"`{ast.unparse(c)}` coerces the unspecified default (None)")
+            passes_on = any(isinstance(c, ast.Call) and any(k.arg and k.arg.endswith("standard_compatible") and dotted(k.value) == name for k in c.keywords) for c in ast.walk(fn.node))  # closures / lambdas included
+            stores_raw = any(isinstance(s_, (ast.Assign, ast.AnnAssign)) and dotted(getattr(s_, "value", None)) == name and any(isinstance(t, ast.Attribute) for t in (s_.targets if isinstance(s_, ast.Assign) else [s_.target]))
+                             for s_ in own_nodes(fn.node))
+            if not resolved and not passes_on:
+                probs.append("None is neither resolved to True nor handed on to a callee that resolves it")
+            if not resolved and stores_raw:
+                probs.append("the unresolved None is stored and later read as falsy")
+            for p_ in probs[:1]:
+                run.finding("C09.dflt", fn, fn.node, f"`{name}`: {p_}: TLS connections silently run in non-standard mode (no close_notify sent, truncation read as a clean EOF)")
+            run.ob("C09.dflt", f"{fn.short}:{name}=None->True", not probs, resolved_here=resolved, delegated=passes_on and not resolved)
+    run.floor("C09.dflt entry points with a defaulted standard_compatible parameter", n, 5)
+
+
+def check_flush_shared(eng, run):
+    """closing sends a close notification: unwrap() only *produces* the alert in the outgoing BIO; it reaches the peer through the
+    retry loop's flush discipline (before waiting for the peer, after success) under the send lock only - machinery of C08"""
+    from rules import c08
+    from sa.report import RuleAlias
+    c08.check_flush(eng, RuleAlias(run, "C09.notify"))
+    c08.check_locks(eng, RuleAlias(run, "C09.notify"))
+
+
 def run(eng, run):
     run.not_decided += NOT_DECIDED
     run.assumptions += ["the ssl module is present (conditional handler expressions `X if ssl else ()` are evaluated with ssl available)"]
@@ -271,6 +334,8 @@ def run(eng, run):
     check_notify(eng, run)
     check_ctx(eng, run)
     check_cli(eng, run)
+    check_default(eng, run)
+    check_flush_shared(eng, run)
     from sa.analyses.arms import check_dead_arms
     check_dead_arms(eng, run, "C09.arms", ("clients.tcp", "clients.async_tcp", "lowlevel.api_async.transports.tls", "lowlevel.api_sync.transports"), 7)
 
@@ -309,4 +374,33 @@ BENIGN = [
             why="the two conditions merged into one test"),
     Variant("sync-close-rename", _S + ".recv_noblock_into", lambda fn: rename_local(fn, "buffer", "buf"), why="parameter renamed"),
     Variant("async-aclose-rename-scope", _A + ".aclose", lambda fn: rename_local(fn, "shutdown_timeout_scope", "scope"), why="local renamed"),
+]
+
+_SRV = "servers.async_tcp:AsyncTCPNetworkServer.__init__"
+_CLI = "clients.tcp:TCPNetworkClient.__init__"
+_RETRY = _A + "._retry_ssl_method"
+
+
+def _flush_inside_recv_lock(fn):
+    h = find_handler(fn, "_ssl_module.SSLWantReadError")
+    inner = next(t for t in h.body if isinstance(t, ast.Try))
+    first, second = inner.body
+    second.body.insert(0, first)
+    inner.body = [second]
+
+
+def _final_flush_not_when_closing(fn):
+    t = next(t for t in ast.walk(fn) if isinstance(t, ast.Try) and t.orelse)
+    i = next(x for x in ast.walk(t.orelse[0]) if isinstance(x, ast.If))
+    i.test = ast.parse("self._write_bio.pending and not self.__closing", mode="eval").body
+
+
+MUTANTS += [
+    Variant("server-default-mode-bool-of-none", _SRV, lambda fn: replace_stmt(fn, stmt_is("if ssl_standard_compatible is None:"), "ssl_standard_compatible = bool(ssl_standard_compatible)"), "C09.dflt",
+            why="an unspecified mode resolves to False: no close_notify, truncation read as clean EOF (seed C09-6)"),
+    Variant("client-default-mode-false", _CLI, lambda fn: replace_stmt(fn, stmt_is("ssl_standard_compatible = True"), "ssl_standard_compatible = False"), "C09.dflt"),
+    Variant("final-flush-skipped-when-closing", _RETRY, _final_flush_not_when_closing,
+            "C09.notify", why="our close_notify produced by a successful unwrap() is never sent (seed C09-5)"),
+    Variant("want-read-flush-under-recv-lock", _RETRY, _flush_inside_recv_lock, "C09.notify",
+            why="a task parked in recv() holds the recv lock: aclose()'s close_notify is never flushed (seed C09-4)"),
 ]
